@@ -9,6 +9,8 @@ FUNCTIONS = [
     "Broker.marking_to_market", "Broker.transact", "Broker.holdings_values", "Broker.net_liquidation_value",
 ]
 REPLAYERS = [
+    ("Trade.__init__::", replayers.trade_init),
+
     ("Broker.marking_to_market::", replayers.marking_to_market_post),
     ("Broker.holdings_weights::", replayers.marking_to_market_post),
     ("Broker.net_liquidation_value::ensures", replayers.marking_to_market_post),
